@@ -965,7 +965,8 @@ def run_witness(binpath, w):
                 f = os.path.join(tmpdir, "a%d.jsonl" % idx)
                 with open(f, "w", encoding="utf-8") as fh:
                     for req in reqs:
-                        fh.write(json.dumps({"method": "run", "input": req}) + "\n")
+                        # a string is the input of a `run` request; a dict is a request sent as it is (eval_up_to, load, ..)
+                        fh.write(json.dumps(req if isinstance(req, dict) else {"method": "run", "input": req}) + "\n")
                 try:
                     p = subprocess.run([binpath, "reftest-json-session", f], capture_output=True, text=True, timeout=w.get("timeout", 30), cwd=tmpdir)
                 except subprocess.TimeoutExpired:
